@@ -16,7 +16,7 @@ META = {
     "assumptions": ["oracle is the statement: contiguity, containment, pairwise disjointness, ancilla coverage minus one slot per 0-round block, translation by the cycle length, estimate inverts size = repetitions x cycle"],
     "exhaustive": {"quick": True, "thorough": True},
     "floors": {
-        "quick": {"experiments": 2500, "kernels_checked": 9000, "ancilla_coverage_checks": 3000, "translation_checks": 2500, "estimate_checks": 2500, "large_experiments": 50, "large_beyond_int32": 15, "large_getter_reads": 1000},
+        "quick": {"experiments": 2500, "kernels_checked": 9000, "ancilla_coverage_checks": 3000, "translation_checks": 2500, "estimate_checks": 2500, "large_experiments": 50, "large_beyond_int32": 15, "experiments_without_calibration_points": 800, "large_getter_reads": 1000},
         "thorough": {"experiments": 19000, "kernels_checked": 70000, "large_experiments": 500, "large_beyond_int32": 200},
     },
 }
@@ -148,6 +148,16 @@ def check_case(case: Dict[str, Any], acc: Acc):
                             break
                     if any(not ck.start_index <= int(v) <= ck.stop_index for v in rows[0]):
                         acc.finding("category/outside-kernel", "calibration getter returns an index outside the calibration kernel", wrap, {"qubit": q.id})
+                    own = {("get_projected_calibration_acquisition_indices", StateKey.STATE_0): ck.get_state_0_measurement_index,
+                           ("get_projected_calibration_acquisition_indices", StateKey.STATE_1): ck.get_state_1_measurement_index,
+                           ("get_projected_calibration_acquisition_indices", StateKey.STATE_2): ck.get_state_2_measurement_index,
+                           ("get_heralded_calibration_acquisition_indices", StateKey.STATE_0): ck.get_heralded_state_0_measurement_index,
+                           ("get_heralded_calibration_acquisition_indices", StateKey.STATE_1): ck.get_heralded_state_1_measurement_index,
+                           ("get_heralded_calibration_acquisition_indices", StateKey.STATE_2): ck.get_heralded_state_2_measurement_index}[(name, state)](q)
+                    acc.count("calibration_getters_vs_kernel")
+                    if [int(v) for v in rows[0]] != [int(v) for v in own]:
+                        acc.finding("category/calibration-state", f"{name}({state.name}): first repetition is not the calibration kernel's own index for that state", wrap,
+                                    {"qubit": q.id, "got": [int(v) for v in rows[0]], "kernel": [int(v) for v in own]})
                 elif arr.size:
                     acc.finding("translation/shape", f"{name} does not return the same number of indices per repetition", wrap, {"size": int(arr.size)})
     # ---- repetition estimate inverts dataset size = repetitions x cycle length
@@ -265,7 +275,64 @@ def check_large(case: Dict[str, Any], acc: Acc):
         acc.finding("estimate/wrong", "estimate_experiment_repetitions does not invert size = repetitions x cycle length", wrap, {"estimate": int(est), "reps": reps, "cycle": cycle})
 
 
+def check_without_calibration(case: Dict[str, Any], acc: Acc):
+    """The same description with calibration points switched off: kernels still tile the cycle, every category the kernel hands
+    out lies inside the dataset range, repetitions are translates by the cycle length, and the estimate inverts
+    size = repetitions x the cycle length THIS kernel reports."""
+    import numpy as np
+    from qce_circuit.connectivity.intrf_channel_identifier import QubitIDObj
+    from qce_circuit.structure.acquisition_indexing.kernel_repetition_code import RepetitionExperimentKernel
+    from qce_circuit.structure.acquisition_indexing.intrf_stabilizer_index_kernel import StateKey
+    rounds, heralded, reps = case["rounds"], case["heralded"], case["reps"]
+    data_names, anc_names = case.get("id_names") or ID_SETS[case["ids"]]
+    data = [QubitIDObj(n) for n in data_names]
+    anc = [QubitIDObj(n) for n in anc_names]
+    wrap = {"experiment": dict(case, calibration_points=False)}
+    acc.count("experiments_without_calibration_points")
+    kernel = RepetitionExperimentKernel(rounds=rounds, heralded_initialization=heralded, qutrit_calibration_points=False,
+                                        involved_data_qubit_ids=data, involved_ancilla_qubit_ids=anc, experiment_repetitions=reps)
+    kernels = kernel.indexing_kernels
+    prev_stop = None
+    for k in kernels:
+        if prev_stop is not None and k.start_index != prev_stop + 1:
+            acc.finding("kernel/not-contiguous", "a kernel does not start right after the previous one (no calibration points)", wrap, None)
+        prev_stop = k.stop_index
+    cycle = int(kernel.kernel_cycle_length)
+    if cycle != int(kernels[-1].stop_index) - int(kernels[0].start_index) + 1:
+        acc.finding("kernel/cycle-length", "cycle length is not the span of the kernels (no calibration points)", wrap, {"cycle": cycle})
+    total = reps * cycle
+    try:
+        est = RepetitionExperimentKernel.estimate_experiment_repetitions(rounds=rounds, heralded_initialization=heralded, qutrit_calibration_points=False,
+                                                                         dataset_size=total)
+    except AssertionError:
+        est = None
+    if est != reps:
+        acc.finding("estimate/inconsistent-without-calibration", "without calibration points the repetition estimate does not invert size = repetitions x the cycle length the kernel reports",
+                    wrap, {"estimate": est, "reps": reps, "kernel_cycle_length": cycle})
+    for q in data + anc:
+        for n in rounds:
+            for name in ("get_heralded_cycle_acquisition_indices", "get_stabilizer_and_projected_cycle_acquisition_indices", "get_projected_cycle_acquisition_indices"):
+                arr = np.asarray(getattr(kernel, name)(qubit_id=q, cycle_stabilizer_count=n))
+                if arr.size == 0 or arr.shape[0] != reps:
+                    continue
+                for r in range(reps):
+                    if (arr[r] != arr[0] + r * cycle).any():
+                        acc.finding("translation/offset", f"{name}: repetition {r} is not repetition 0 translated by r x cycle length (no calibration points)", wrap, {"qubit": q.id})
+                        break
+                if int(arr.min()) < 0 or int(arr.max()) >= total:
+                    acc.finding("category/outside-range", f"{name} returns an index outside [0, repetitions x cycle length) (no calibration points)", wrap, None)
+        for state in (StateKey.STATE_0, StateKey.STATE_1, StateKey.STATE_2):
+            for name in ("get_projected_calibration_acquisition_indices", "get_heralded_calibration_acquisition_indices"):
+                arr = np.asarray(getattr(kernel, name)(qubit_id=q, state=state))
+                if arr.size and (int(arr.min()) < 0 or int(arr.max()) >= total):
+                    acc.finding("category/outside-range", f"{name} returns an index outside [0, repetitions x cycle length) although the description has no calibration points",
+                                wrap, {"qubit": q.id, "max": int(arr.max()), "total": total})
+
+
 def check_program(case: Dict[str, Any], acc: Acc):
+    if case.get("calibration_points") is False:
+        check_without_calibration(case, acc)
+        return
     if case.get("large"):
         check_large(case, acc)
     else:
@@ -282,6 +349,8 @@ def run_shard(shard: Dict[str, Any]) -> Acc:
             nontrivial = (0 in case["rounds"] or 1 in case["rounds"]) and len(case["rounds"]) >= 2
             acc.case(bp.phash(case), nontrivial, sample=case)
             common.guarded(acc, check_case, case, acc, case={"experiment": case})
+            if i % 3 == 0:
+                common.guarded(acc, check_without_calibration, case, acc, case={"experiment": dict(case, calibration_points=False)})
         acc.count("enumerated_space_size", shard["total"] if shard["part"] == 0 else 0)
         return acc
     rng = random.Random(shard["seed"])
